@@ -85,14 +85,14 @@ func (t *Trie[K, V]) Contains(key K) bool {
 // Put inserts a new node into the symbol table, overwriting the old value
 // with the new one if the key is already in the symbol table.
 func (t *Trie[K, V]) Put(key K, val V) {
-	if !t.Contains(key) {
-		t.mu.Lock()
-		t.n++
-		t.mu.Unlock()
-	}
 	t.mu.Lock()
+	defer t.mu.Unlock()
+
+	// Count the key and insert it in the same critical section, otherwise racing calls count it twice.
+	if x, err := t.root.get(key, 0); x == nil || err != nil || !x.isValid {
+		t.n++
+	}
 	t.root = t.root.put(t, key, val, 0, true)
-	t.mu.Unlock()
 }
 
 func (n *node[K, V]) put(t *Trie[K, V], key K, val V, d int, isValid bool) *node[K, V] {
